@@ -52,9 +52,11 @@ type Contract struct {
 	MayPanic    bool    // panic/exit behaviour unspecified
 	NoReturn    bool
 	Keeps       []string
+	SkipInv     []string
 	PostEffects []*Effect // ghost assignments made at each call site after the call returned (may mention result)
 	LoopAll     []*Clause // invariants of every loop of the function (auto contracts)
 	Dispatch    bool
+	DispatchIfaces []string
 	IgnoreDefer bool
 	Loops       map[int]*LoopSpec
 	Props       []string
@@ -251,9 +253,15 @@ func ParseContractFile(path, pkgPath string) ([]*Contract, error) {
 			for _, it := range splitTop(rest) {
 				cur.Keeps = append(cur.Keeps, strings.TrimSpace(it))
 			}
+		case "skipinvariant":
+			// (package initializer) this invariant is established elsewhere - by an init function run through
+			// sync.Once - and checked there
+			cur.SkipInv = append(cur.SkipInv, strings.Fields(rest)...)
 		case "dispatch":
 			// interface method calls in this function are resolved to in-package implementers under contract
 			cur.Dispatch = true
+			// dispatch I1 I2: additionally resolve calls through these interfaces of the root package
+			cur.DispatchIfaces = append(cur.DispatchIfaces, strings.Fields(rest)...)
 		case "noghost":
 			cur.NoGhost = true
 		case "ignoredefer":
